@@ -96,17 +96,37 @@ class Builder:
             if self.rng.random() < 0.3:
                 self.rng.shuffle(cs)
             mapping.append([a, cs])
+        # multi-timestamp pipelines (what the trace loaders build): some tasks whose only parent is X@t become
+        # X@t+1 (same name, next timestamp) - `is_source_task` / `is_sink_task` have a special clause for them.
+        # The choice comes from a sub-stream keyed by the graph, the main stream is not shifted.
+        import json as _json
+
+        from harness import common as _common
+
+        r2 = _common.Rng(0, "taskgraph-stamps/" + _json.dumps([sorted(self.edges.items()), self.name], sort_keys=True, default=str))
+        if getattr(self, "stamps", False) and r2.random() < 0.25:
+            only_parent = {}
+            for a, cs in self.edges.items():
+                for c in cs:
+                    only_parent.setdefault(c, []).append(a)
+            for b in sorted(self.nodes):
+                ps = only_parent.get(b, [])
+                if len(ps) == 1 and r2.random() < 0.6 and not self.nodes[b]["terminal"] and not self.nodes[ps[0]]["conditional"]:
+                    self.nodes[b]["name"] = self.nodes[ps[0]]["name"]
+                    self.nodes[b]["ts"] = self.nodes[ps[0]].get("ts", 0) + 1
         return {"name": self.name, "nodes": {l: nd for l, nd in self.nodes.items()}, "mapping": mapping}
 
 
 def gen_grammar_graph(rng, name="G@0"):
     b = Builder(rng, name)
+    b.stamps = True   # TaskGraphs built directly from Task objects may hold several timestamps
     b.term(rng.choice([1, 2, 2, 3]))
     return b.finish()
 
 
 def gen_random_dag(rng, name="G@0"):
     b = Builder(rng, name)
+    b.stamps = True
     n = rng.randint(1, 7)
     labs = [b.task() for _ in range(n)]
     for i in range(n):
